@@ -500,8 +500,20 @@ func c49Check(tb ev.TB, rec *ev.Rec, c *c49Case) {
 		nt = true
 		if got := rw.h.Get("Location"); got != loc {
 			key := "effect/" + cmd
-			if cmd == "URL_FROM_QUERY" && strings.Contains(c.Req.Target, ";") {
-				key = "effect/URL_FROM_QUERY/semicolon"
+			if cmd == "URL_FROM_QUERY" {
+				for _, r := range c.Rules {
+					if r.Actions[0].Cmd != cmd {
+						continue
+					}
+					for _, p := range splitQuery(rawQuery) {
+						if p.Key == r.Actions[0].Params[0] {
+							if strings.Contains(p.Raw, ";") {
+								key = "effect/URL_FROM_QUERY/semicolon-element"
+							}
+							break
+						}
+					}
+				}
 			}
 			if rec.Fail(tb, key, c, "%s: Location %q, documented %q", cmd, got, loc) {
 				return
@@ -526,12 +538,12 @@ func c49DelKey(cmd string, p qpair) string {
 		pre = "query-del-all-except/"
 	}
 	switch {
+	case strings.Contains(p.Raw, ";") && cmd == "QUERY_DEL_ALL_EXCEPT":
+		return pre + "semicolon-element" // the keys to delete come from url.Query() there
 	case !p.HasEq:
 		return pre + "key-without-eq"
 	case p.RawK != p.Key:
 		return pre + "encoded-key"
-	case strings.Contains(p.Raw, ";"):
-		return pre + "semicolon-element"
 	}
 	return pre + "plain-key-survives"
 }
@@ -828,6 +840,21 @@ func c49GenCase(rt *rapid.T) *c49Case {
 		c.Rules = append(c.Rules, r)
 	}
 	q := c49GenQuery(rt, want)
+	if c.Mod == "redirect" && len(want) > 0 && rapid.IntRange(0, 9).Draw(rt, "urlval") < 7 {
+		k := rapid.SampledFrom(want).Draw(rt, "urlkey")
+		rk := c49EncKey(rt, k)
+		v := rapid.SampledFrom([]string{"http%3A%2F%2Fx.org%2Fp%3Fz%3D1%26w%3D2", "https://n.example.org/x", "https%3a%2f%2fn.example.org%2Fa+b",
+			"http://x.org/p;v=1", "https://x.org/?a=b"}).Draw(rt, "urlv")
+		el := rk + "=" + v
+		switch {
+		case q == "":
+			q = el
+		case rapid.Bool().Draw(rt, "urlfirst"):
+			q = el + "&" + q
+		default:
+			q = q + "&" + el
+		}
+	}
 	target := rawPath
 	if q != "" || rapid.IntRange(0, 9).Draw(rt, "bareq") == 0 {
 		target += "?" + q
